@@ -63,6 +63,61 @@ open Bct Bct.Walks Finset
 
 variable {n : Nat} (σ : Equiv.Perm (Fin n))
 
+/-! ### PageRank, unconditional on the routine's domain (C18: the model returns, and what it returns is the unique solution) -/
+
+theorem colDeg_perm (A : QMat n) (j : Fin n) : colDeg (permA σ A) j = colDeg A (σ j) := by
+  simp only [colDeg, permA_get]
+  have : (Walks.fsum fun i => A.get (σ i) (σ j)) = Walks.fsum fun i => A.get i (σ j) := fsum_congr_perm σ _ _ (fun _ => rfl)
+  rw [this]
+
+theorem prMat_perm' (A : QMat n) (d : Rat) : prMat (permA σ A) d = permA σ (prMat A d) := by
+  apply AMat.ext_get; intro i j
+  simp [prMat, colDeg_perm, delta]
+
+/-- non-negative weights, `0 ≤ d < 1`, no prior or a non-negative prior with non-zero sum (renumbered with the graph):
+the model returns for both numberings and the PageRank vectors correspond -/
+theorem pagerank_perm_total (A : QMat n) (d : Rat) (f : Option (Vector Int n)) (hn : 0 < n)
+    (hA : ∀ i j, 0 ≤ A.get i j) (hd0 : 0 ≤ d) (hd1 : d < 1)
+    (hf : ∀ g, f = some g → (∀ i : Fin n, 0 ≤ g[i]) ∧ ∑ i : Fin n, (g[i] : ℚ) ≠ 0) :
+    ∃ o o', pagerank A d f = .ok o ∧ pagerank (permA σ A) d (f.map (permVec σ)) = .ok o' ∧ o'.r = permVec σ o.r := by
+  have hA' : ∀ i j, 0 ≤ (permA σ A).get i j := fun i j => by simpa using hA (σ i) (σ j)
+  have hf' : ∀ g, f.map (permVec σ) = some g → (∀ i : Fin n, 0 ≤ g[i]) ∧ ∑ i : Fin n, (g[i] : ℚ) ≠ 0 := by
+    intro g hg
+    cases f with
+    | none => simp at hg
+    | some g0 =>
+      simp only [Option.map_some, Option.some.injEq] at hg
+      subst hg
+      obtain ⟨h1, h2⟩ := hf g0 rfl
+      refine ⟨fun i => by simpa using h1 (σ i), ?_⟩
+      simp only [permVec_getElem]
+      rw [Equiv.sum_comp σ (fun i => ((g0[i] : Int) : ℚ))]
+      exact h2
+  obtain ⟨o, h⟩ := C18.pagerank_total A d f hn hA hd0 hd1 hf
+  obtain ⟨o', h'⟩ := C18.pagerank_total (permA σ A) d (f.map (permVec σ)) hn hA' hd0 hd1 hf'
+  refine ⟨o, o', h, h', ?_⟩
+  have hfp : ∀ i : Fin n, o'.f[i] = o.f[σ i] := prior_perm_get σ f o.f o'.f (pagerank_ok h).1 (pagerank_ok h').1
+  -- the renumbered solution of the original system solves the renumbered system
+  have hsol := (solves_iff _ _ _).mp (pagerank_ok h).2.1
+  have key := C18.pagerank_model_is_solution (permA σ A) d (f.map (permVec σ)) o' h' hA' hd0 hd1 (fun i => o.r0[σ i]) (by
+    ext i
+    have := hsol (σ i)
+    simp only [Matrix.mulVec, dotProduct, toMat_apply, prMat_perm', permA_get, hfp]
+    simp only [Fin.getElem_fin, Vector.getElem_ofFn] at this
+    have e := Equiv.sum_comp σ (fun x => AMat.get (prMat A d) (σ i) x * o.r0[x])
+    rw [e]
+    simpa using this)
+  have hs : Walks.fsum (fun i : Fin n => o'.r0[i]) = Walks.fsum fun i : Fin n => o.r0[i] := by
+    rw [Walks.fsum_eq, Walks.fsum_eq, ← Equiv.sum_comp σ (fun i => o.r0[i])]
+    exact Finset.sum_congr rfl (fun i _ => (key i).symm)
+  apply vec_ext; intro i
+  rw [permVec_get]
+  have e1 : vget o'.r i = o'.r0[i] / Walks.fsum fun i : Fin n => o'.r0[i] := by
+    rw [(pagerank_ok h').2.2.2]; simp [vget]
+  have e2 : vget o.r (σ i) = o.r0[σ i] / Walks.fsum fun i : Fin n => o.r0[i] := by
+    rw [(pagerank_ok h).2.2.2]; simp [vget]
+  rw [e1, e2, hs, ← key i]
+
 /-! ### subgraph centrality: the series `Σ_{m<T} (A^m)_{ii}/m!` that the C18 slice executes (`expDiag`) -/
 
 theorem wfsum_eq_fsum (f : Fin n → Rat) : Walks.fsum f = Measures.fsum f := rfl
